@@ -151,10 +151,9 @@ class Pdrop(FilterPattern):
 
     def __embed__(self, inval):
         stream = stm.stream(self.pattern)
-        first_inval = inval
         try:
             for _ in range(self.n):
-                inval = stream.next(first_inval)
+                stream.next(inval)  # The dropped value is not the in value.
             while True:
                 inval = yield stream.next(inval)
         except stm.StopStream:
